@@ -1023,29 +1023,105 @@ func c23mergeRoots(k *eng.Check, siteCall *ssa.Call, sites []*c23site) {
 	if nMerges < 2 {
 		// the two merges may have been moved into helper functions (phase split): follow one level of same-package
 		// helpers, mapping the roles of the working-set arguments through the call
-		paramRoleTop := func(v ssa.Value) string {
+		isPhase := func(h *ssa.Function) bool {
+			return h != nil && len(h.Blocks) > 0 && eng.FuncPkg(h) == eng.FuncPkg(fn) && len(eng.Calls(h, c23mMergeRoots, false)) > 0
+		}
+		var paramRoleTop func(v ssa.Value, depth int) string
+		paramRoleTop = func(v ssa.Value, depth int) string {
 			leaves, _ := c23wsChain(v)
 			r := ""
+			join := func(x string) bool {
+				if x == "" || x == "?" || (r != "" && r != x) {
+					return false
+				}
+				r = x
+				return true
+			}
 			for _, l := range leaves {
-				pi := c23paramIndex(fn, l)
-				if pi < 0 {
+				if pi := c23paramIndex(fn, l); pi >= 0 {
+					if !join(role[pi]) {
+						return "?"
+					}
+					continue
+				}
+				// the working set handed on by an earlier phase helper: it carries the role of the helper
+				// parameter(s) every working set the helper returns is built on
+				ex, ok := l.(*ssa.Extract)
+				if !ok || ex.Index != 0 || depth > 2 {
 					return "?"
 				}
-				if r != "" && r != role[pi] {
+				hc, ok := ex.Tuple.(*ssa.Call)
+				if !ok || !isPhase(hc.Call.StaticCallee()) {
 					return "?"
 				}
-				r = role[pi]
+				h := hc.Call.StaticCallee()
+				n := 0
+				for in := range eng.C23SuccessExits(h).I {
+					ret, ok := in.(*ssa.Return)
+					if !ok || len(ret.Results) == 0 {
+						return "?"
+					}
+					hl, _ := c23wsChain(ret.Results[0])
+					for _, x := range hl {
+						pi := c23paramIndex(h, x)
+						if pi < 0 || pi >= len(hc.Call.Args) || !join(paramRoleTop(hc.Call.Args[pi], depth+1)) {
+							return "?"
+						}
+						n++
+					}
+				}
+				if n == 0 {
+					return "?"
+				}
 			}
 			return r
 		}
-		for _, ci := range eng.Calls(fn, func(q ssa.CallInstruction) bool {
-			h := q.Common().StaticCallee()
-			return h != nil && len(h.Blocks) > 0 && eng.FuncPkg(h) == eng.FuncPkg(fn) && len(eng.Calls(h, c23mMergeRoots, false)) > 0
-		}, false) {
+		phaseCalls := eng.Calls(fn, func(q ssa.CallInstruction) bool { return isPhase(q.Common().StaticCallee()) }, false)
+		// every phase's working set reaches the working set the merge function returns: directly, or as the
+		// transaction working set handed to a later phase whose result does
+		leafCalls := func(v ssa.Value) []ssa.CallInstruction {
+			var out []ssa.CallInstruction
+			leaves, _ := c23wsChain(v)
+			for _, l := range leaves {
+				if ex, ok := l.(*ssa.Extract); ok && ex.Index == 0 {
+					for _, pc := range phaseCalls {
+						if ssa.Value(pc.(*ssa.Call)) == ex.Tuple {
+							out = append(out, pc)
+						}
+					}
+				}
+			}
+			return out
+		}
+		reached := map[ssa.CallInstruction]bool{}
+		var work []ssa.CallInstruction
+		for in := range eng.C23SuccessExits(fn).I {
+			if ret, ok := in.(*ssa.Return); ok && len(ret.Results) > 0 {
+				work = append(work, leafCalls(ret.Results[0])...)
+			}
+		}
+		for len(work) > 0 {
+			pc := work[len(work)-1]
+			work = work[:len(work)-1]
+			if reached[pc] {
+				continue
+			}
+			reached[pc] = true
+			for _, ai := range c23argsOfType(pc, c23WsPtr) {
+				if paramRoleTop(pc.Common().Args[ai], 0) == "tx" {
+					work = append(work, leafCalls(pc.Common().Args[ai])...)
+				}
+			}
+		}
+		for _, pc := range phaseCalls {
+			h := pc.Common().StaticCallee()
+			k.Require("merge-result-installed", eng.Name(fn)+"#"+eng.Name(h)+"#result-kept", "the working set produced by a merge phase reaches the working set the merge function returns", reached[pc], k.C.InstrPos(pc.(ssa.Instruction)), "the phase's result is discarded: its merged root is lost")
+		}
+		for _, ci := range phaseCalls {
 			h := ci.Common().StaticCallee()
 			hrole := map[int]string{}
 			for _, ai := range c23argsOfType(ci, c23WsPtr) {
-				hrole[ai] = paramRoleTop(ci.Common().Args[ai])
+				hrole[ai] = paramRoleTop(ci.Common().Args[ai], 0)
 			}
 			k.FuncsSeen[h] = true
 			nMerges += c23mergeRootsIn(k, h, hrole, kinds)
